@@ -53,6 +53,19 @@ func Verif_c09_positions() {
 	f, err := NewParser(Variant(lang), KeepComments(true)).Parse(bytes.NewReader(src), "")
 	verifAssume(err == nil)
 	hasBquote := bytes.IndexByte(src, '`') >= 0
+	// listed known findings (regions)
+	comBs := false
+	for i := 0; i+1 < len(src); i++ {
+		if src[i] == '\\' && (src[i+1] == '\n' || src[i+1] == '\r') && bytes.IndexByte(src[:i], '#') >= 0 {
+			comBs = true
+		}
+	}
+	if verifKnown("C09-comment-backslash-newline", comBs) {
+		return
+	}
+	if verifKnown("C09-zsh-nul-in-braces", verifParam("lang") == 4 && bytes.IndexByte(src, 0) >= 0 && bytes.IndexByte(src, '{') >= 0 && bytes.IndexByte(src, '}') >= 0) {
+		return
+	}
 	var stack []Node
 	var lastStmtEnd []Pos
 	Walk(f, func(nd Node) bool {
@@ -133,7 +146,11 @@ func Verif_c09_positions() {
 		case *BinaryCmd:
 			verifAt(src, x.OpPos, x.Op.String(), "BinaryCmd.OpPos")
 		case *Redirect:
-			verifAt(src, x.OpPos, x.Op.String(), "Redirect.OpPos")
+			op := x.Op.String()
+			if off := int(x.OpPos.Offset()) + len(op) - 1; op[len(op)-1] == '|' && off < len(src) && src[off] == '!' {
+				op = op[:len(op)-1] + "!" // zsh spells the clobber operators with ! as well
+			}
+			verifAt(src, x.OpPos, op, "Redirect.OpPos")
 		case *IfClause:
 			if x.Position.IsValid() && x.ThenPos.IsValid() {
 				verifAt(src, x.ThenPos, "then", "IfClause.ThenPos")
